@@ -5,8 +5,8 @@ package fw
 
 import (
 	"bufio"
-	"context"
 	"bytes"
+	"context"
 	"crypto/sha256"
 	"encoding/binary"
 	"encoding/hex"
@@ -210,6 +210,20 @@ func (c *Ctx) Guard(kind string, cs interface{}) {
 	var hdr [8]byte
 	binary.LittleEndian.PutUint64(hdr[:], uint64(len(b)))
 	c.guardFile.WriteAt(append(hdr[:], b...), 0)
+}
+
+// NewReplayCtx returns a single-shard context for re-running enumeration
+// code inside a replay.
+func NewReplayCtx(c *Ctx) *Ctx {
+	return newCtx(c.Spec, c.Tier, c.Seed, 0, 1, c.WorkDir)
+}
+
+// FirstViolation returns the message of the first recorded violation ("" if none).
+func (c *Ctx) FirstViolation() string {
+	if len(c.violations) == 0 {
+		return ""
+	}
+	return c.violations[0].Msg
 }
 
 // Protect runs f, converting a panic into a message.
